@@ -231,55 +231,90 @@ class Channel:
         self.s.kick()
 
     # -- client side (aiormq surface)
-    async def _lat(self) -> None:
+    async def _send(self, effect: Callable[[], Any]) -> Any:
+        """One request frame.  aiormq puts the frame on its write queue before the call suspends for the first time, so once a
+        call has started the request reaches the server even if the caller is cancelled while it waits for the write to drain or
+        for the reply; frames of one connection arrive in the order they were sent.  Returns the effect's result (or raises what
+        it raised) once the frame has arrived."""
         if self.conn.dead or self.is_closed:
             raise ChannelInvalidStateError("channel is closed")
+        loop = asyncio.get_event_loop()
+        t = max(self.conn.wire_t, loop.time() + self.conn.lat())
+        self.conn.wire_t = t
+        fut: asyncio.Future = loop.create_future()
+        fut.add_done_callback(lambda f: f.cancelled() or f.exception())  # (a cancelled caller never looks at it)
+
+        def arrive() -> None:
+            if fut.done():
+                return
+            if self.conn.dead or self.is_closed:
+                fut.set_exception(ChannelInvalidStateError("channel is closed"))  # the frame never left the dead process
+                return
+            try:
+                fut.set_result(effect())
+            except Exception as e:  # noqa: BLE001
+                fut.set_exception(e)
+
+        if t <= loop.time():
+            arrive()
+        else:
+            loop.call_at(t, arrive)
+        return await asyncio.shield(fut)
+
+    async def _reply(self) -> None:
         await asyncio.sleep(self.conn.lat())
         if self.conn.dead or self.is_closed:
             raise ChannelInvalidStateError("channel is closed")
 
     async def basic_publish(self, body: bytes, *, exchange: str = "", routing_key: str = "", properties: Any = None,
                             mandatory: bool = False, immediate: bool = False, timeout: Any = None, wait: bool = True) -> Any:
-        await self._lat()
         if exchange != "":
             raise NotImplementedError("only the default exchange is modelled")
-        ok = self.s.publish(routing_key, body, properties or spec.Basic.Properties())
+        ok = await self._send(lambda: self.s.publish(routing_key, body, properties or spec.Basic.Properties()))
         self.ncalls += 1
         if self.s.slow_confirm:
             await asyncio.sleep(0)
             await asyncio.sleep(0)
-        await self._lat()
+        await self._reply()
         if ok:
             return spec.Basic.Ack(delivery_tag=0)
         return spec.Basic.Return(reply_code=312, reply_text="NO_ROUTE", exchange=exchange, routing_key=routing_key)
 
     async def basic_ack(self, delivery_tag: int, multiple: bool = False, wait: bool = True) -> None:
-        await self._lat()
         if multiple:
             raise NotImplementedError
-        self.unacked.pop(delivery_tag, None)
+
+        def effect() -> None:
+            self.unacked.pop(delivery_tag, None)
+            self.s.kick()
+
+        await self._send(effect)
         self.ncalls += 1
-        self.s.kick()
+        await asyncio.sleep(0)  # (the write drains)
 
     async def basic_nack(self, delivery_tag: int, multiple: bool = False, requeue: bool = True, wait: bool = True) -> None:
-        await self._lat()
         if multiple:
             raise NotImplementedError
-        self._back(delivery_tag, requeue)
+        await self._send(lambda: self._back(delivery_tag, requeue))
         self.ncalls += 1
+        await asyncio.sleep(0)
 
     async def basic_reject(self, delivery_tag: int, *, requeue: bool = True, wait: bool = True) -> None:
-        await self._lat()
-        self._back(delivery_tag, requeue)
+        await self._send(lambda: self._back(delivery_tag, requeue))
         self.ncalls += 1
+        await asyncio.sleep(0)
 
     async def basic_qos(self, *, prefetch_size: int | None = None, prefetch_count: int | None = None,
                         global_: bool = False, timeout: Any = None) -> Any:
-        await self._lat()
         if global_:
             raise NotImplementedError
-        self.qos = prefetch_count or 0
+
+        def effect() -> None:
+            self.qos = prefetch_count or 0
+
+        await self._send(effect)
         self.ncalls += 1
+        await self._reply()
         return spec.Basic.QosOk()
 
     async def basic_consume(self, queue: str, consumer_callback: Any, *, no_ack: bool = False, exclusive: bool = False,
@@ -290,23 +325,30 @@ class Channel:
         if tag in self.consumers:
             raise RuntimeError("duplicate consumer tag")
         self.consumers[tag] = consumer_callback
-        await self._lat()
-        if queue not in self.s.queues:
-            self.consumers.pop(tag, None)
-            from aiormq.exceptions import ChannelNotFoundEntity
 
-            # (RabbitMQ also closes the channel on a 404; the model only reports the error)
-            raise ChannelNotFoundEntity(f"NOT_FOUND - no queue '{queue}' in vhost '/'")
-        self.cprefetch[tag] = self.qos
-        self.s.queues[queue].consumers.append((self, tag))
+        def effect() -> None:
+            if queue not in self.s.queues:
+                self.consumers.pop(tag, None)
+                from aiormq.exceptions import ChannelNotFoundEntity
+
+                # (RabbitMQ also closes the channel on a 404; the model only reports the error)
+                raise ChannelNotFoundEntity(f"NOT_FOUND - no queue '{queue}' in vhost '/'")
+            self.cprefetch[tag] = self.qos
+            self.s.queues[queue].consumers.append((self, tag))
+            self.s.kick()
+
+        await self._send(effect)
         self.ncalls += 1
-        self.s.kick()
+        await self._reply()
         return spec.Basic.ConsumeOk(consumer_tag=tag)
 
     async def basic_cancel(self, consumer_tag: str, *, nowait: bool = False, timeout: Any = None) -> Any:
-        await self._lat()
-        for q in self.s.queues.values():
-            q.consumers = [(c, t) for (c, t) in q.consumers if not (c is self and t == consumer_tag)]
+        def effect() -> None:
+            for q in self.s.queues.values():
+                q.consumers = [(c, t) for (c, t) in q.consumers if not (c is self and t == consumer_tag)]
+
+        await self._send(effect)
+        await self._reply()
         self.consumers.pop(consumer_tag, None)  # aiormq pops on Basic.CancelOk
         self.ncalls += 1
         return spec.Basic.CancelOk(consumer_tag=consumer_tag)
@@ -314,24 +356,32 @@ class Channel:
     async def queue_declare(self, queue: str = "", *, passive: bool = False, durable: bool = False,
                             exclusive: bool = False, auto_delete: bool = False, nowait: bool = False,
                             arguments: dict | None = None, timeout: Any = None) -> Any:
-        await self._lat()
-        self.s.declare(queue, arguments)
+        def effect() -> Any:
+            self.s.declare(queue, arguments)
+            q = self.s.queues[queue]
+            return spec.Queue.DeclareOk(queue=queue, message_count=len(q), consumer_count=len(q.consumers))
+
+        r = await self._send(effect)
         self.ncalls += 1
-        q = self.s.queues[queue]
-        return spec.Queue.DeclareOk(queue=queue, message_count=len(q), consumer_count=len(q.consumers))
+        await self._reply()
+        return r
 
     async def queue_purge(self, queue: str = "", nowait: bool = False, timeout: Any = None) -> Any:
-        await self._lat()
-        n = 0
-        if queue in self.s.queues:
-            n = len(self.s.queues[queue])
-            self.s.queues[queue].levels.clear()
+        def effect() -> int:
+            n = 0
+            if queue in self.s.queues:
+                n = len(self.s.queues[queue])
+                self.s.queues[queue].levels.clear()
+            return n
+
+        n = await self._send(effect)
+        await self._reply()
         return spec.Queue.PurgeOk(message_count=n)
 
     async def queue_delete(self, queue: str = "", if_unused: bool = False, if_empty: bool = False,
                            nowait: bool = False, timeout: Any = None) -> Any:
-        await self._lat()
-        n = self.s.delete_queue(queue)
+        n = await self._send(lambda: self.s.delete_queue(queue))
+        await self._reply()
         return spec.Queue.DeleteOk(message_count=n)
 
 
@@ -343,6 +393,7 @@ class Conn:
         self.chs: list[Channel] = []
         self.closed = False
         self.dead = False
+        self.wire_t = 0.0  # arrival time of the connection's latest frame (frames keep their order)
 
     async def channel(self, *a: Any, **k: Any) -> Channel:
         await asyncio.sleep(0)
